@@ -11,5 +11,5 @@ for c in $checks; do
   echo "== $c on seed $id: $(echo "$out" | grep -c '^VIOLATION') violations; $(echo "$out" | grep '^property' | cut -c1-90)"
   echo "$out" | grep -E '^VIOLATION|^load|MACHINERY|VACUITY' | awk '{print "   ",$1,$4,$5}' | head -4
 done
-git -C /repo checkout -- .
+git -C /repo apply -R $p 2>/dev/null || git -C /repo checkout -- .
 git -C /repo status --short
